@@ -385,7 +385,7 @@ pub fn def() -> PropDef {
         rule: "values of Fr, Fq12, G1, G2, G1Affine, G2Affine (subgroup points of every class incl. identity, walks P+[k]G, projective values in generated representatives) x both flags: bytes written compared with the model image (32 / 576 / 48|96 / 96|192 bytes); streams read back through a chunking, counting reader (whole / byte-at-a-time / generated chunk sizes): valid image, every kind of proper prefix, trailing data, opposite flag, one field component replaced by p+k / p-1-k / 2^381 / all-ones / uniform, arbitrary point bytes from the C04 generator (every rejection class), uniform bytes, single bit flips. Oracle: model decides from the bytes alone whether a value is due (then: Ok, exact consumption, value's canonical image equals the consumed bytes) or an error is due (then: Err, never a value or a panic). Non-trivial = stream differs from the valid image; distinct = distinct cases",
         needs_pairing: false,
         subs: vec![
-            Box::new(Sub { name: "serdes", rule: "serialize bytes == model image; deserialize outcome / consumption / value decided by the model from the bytes", quick: 6000, thorough: 250_000, strategy: || boxed(ser_case_strategy()), check: check_ser }),
+            Box::new(Sub { name: "serdes", rule: "serialize bytes == model image; deserialize outcome / consumption / value decided by the model from the bytes", quick: 24_000, thorough: 250_000, strategy: || boxed(ser_case_strategy()), check: check_ser }),
             super::corpus_sub_serdes(),
         ],
         assumptions: {
